@@ -1073,3 +1073,60 @@ func utf16le(s string) []byte {
 	}
 	return out
 }
+
+// TestC09Aftermath: a storage operation fails while a request is served (C10 says what that request's reply must be); then the
+// storage is back and the same provider serves ordinary requests on every endpoint. Whatever the failed request left behind in
+// the provider, none of them may panic. Every (endpoint scenario x faulted operation x fault kind) of C10's single-fault matrix
+// is followed by one request of each kind; the provider publishes its organisation and contact person, and the attribute query
+// that follows names the advertised attribute service as its Destination (so that every part of the cached / recomputed
+// descriptors is looked at).
+func TestC09Aftermath(t *testing.T) {
+	col := ev.For("C09", "exploration", c09Rule)
+	runPlain(t, col, "TestC09", func(fail func(*ev.Violation, any)) {
+		n, nontrivial := 0, 0
+		now := time.Now()
+		for _, sc := range c10Scenarios {
+			seen := map[string]bool{}
+			for _, f := range c10FaultPoints(sc, 0) {
+				if seen[f.Op+"/"+f.Kind] {
+					continue // every call of the operation is faulted below: occurrences collapse
+				}
+				seen[f.Op+"/"+f.Kind] = true
+				spec, hr := c10Build(sc, 0, now)
+				spec.IdP.Organisation = &world.OrgSpec{Name: "Org", DisplayName: "Organisation", URL: "https://org.example"}
+				spec.IdP.Contact = &world.ContactSpec{ContactType: "technical", Company: "Org", GivenName: "G", SurName: "S", Email: "ops@org.example", Phone: "+41"}
+				w := mustBuild(spec)
+				w.Store.SetFaults([]world.Fault{{Op: f.Op, Occurrence: 0, Kind: f.Kind}})
+				first := obs.Do(w.Handler, hr)
+				w.Store.SetFaults(nil)
+				c := map[string]any{"scenario": sc, "fault": world.Fault{Op: f.Op, Kind: f.Kind}.String()}
+				if first.Panic != "" {
+					fail(ev.V("C09/panic:"+first.PanicSite(), "%s while %s:%s: handler panicked: %s", sc, f.Op, f.Kind, short(first.Panic, 120)), c)
+					continue
+				}
+				q := spsim.NewAttrQuery("_aftermath-q", spec.SPs[0].EntityID, "login0@users.example")
+				q.Destination = spec.IdP.Advertised("attribute", hr.Host)
+				aq, _, _ := spsim.Encode(spec.IdP.Route("attribute"), xt.Write(spsim.Envelope(q.QueryTree(plainStyle), "soap"), plainStyle.W), spsim.Transport{Binding: "soap"}, nil)
+				aq.Host = hr.Host
+				follow := []obs.HTTPReq{aq}
+				for _, fs := range []string{"metadata-unsigned", "certificate", "sso-post", "sso-redirect", "callback-post-done", "callback-redirect-done", "logout", "attrquery", "ready"} {
+					_, r := c10Build(fs, 0, now)
+					follow = append(follow, r)
+				}
+				for _, r := range follow {
+					n++
+					rep := obs.Do(w.Handler, r)
+					if rep.Panic != "" {
+						c["follow_up"] = r.Method + " " + r.Path
+						fail(ev.V("C09/panic-after-a-failed-request:"+rep.PanicSite(), "%s %s after the storage failed (%s:%s) during a %s request and was repaired: handler panicked: %s", r.Method, r.Path, f.Op, f.Kind, sc, short(rep.Panic, 120)), c)
+						break
+					}
+				}
+				nontrivial++
+				col.Case(true, ev.Fingerprint("aftermath", sc, f.Op, f.Kind), []string{"aftermath", "aftermath/" + sc}, func() any { return c })
+			}
+		}
+		col.SetExtra("aftermath_follow_up_requests", n)
+		_ = nontrivial
+	})
+}
